@@ -10,6 +10,7 @@ import (
 	"fmt"
 	"io"
 	"sort"
+	"strconv"
 	"strings"
 	"time"
 
@@ -186,7 +187,8 @@ func (h *Server) handle(ctx *fasthttp.RequestCtx) {
 	call.Req = snapshotReq(ctx)
 	for _, kv := range call.Req.Headers {
 		if kv[0] == "X-Sid" || kv[0] == "x-sid" {
-			fmt.Sscanf(kv[1], "%d", &call.Stream)
+			n, _ := strconv.Atoi(kv[1])
+			call.Stream = uint32(n)
 		}
 	}
 	h.Calls = append(h.Calls, call)
@@ -194,7 +196,7 @@ func (h *Server) handle(ctx *fasthttp.RequestCtx) {
 	if h.Running > h.MaxRunning {
 		h.MaxRunning = h.Running
 	}
-	h.S.MarkInUse(ctx, fmt.Sprintf("handler#%d", call.Idx))
+	h.S.MarkInUse(ctx, "handler#"+strconv.Itoa(call.Idx))
 	r := vsched.Recv(call.gate)
 	if vsched.Dying() {
 		return
